@@ -7,8 +7,8 @@
    time against the offsets BC/Compiler.v computes from the sizes of the sub-codes: lia).  Then by
    induction on the tree: the compiler obtained from the schemes alone (gen_compile) is compile. *)
 From Coq Require Import ZArith Bool List String Arith Lia.
-Require Import X.Base.Num X.Base.Value X.Syn.Ast X.Sem.Prim X.Sem.Sem X.BC.Instr X.BC.Decode X.BC.Compiler
-               X.BC.Schemes X.BC.SchemesProofs X.gen.GenSchemes.
+Require Import X.Base.Num X.Base.Value X.Syn.Ast X.Sem.Prim X.Sem.Sem X.Sem.MatchesFacts X.BC.Instr X.BC.Decode X.BC.Compiler
+               X.BC.Schemes X.BC.SchemesProofs X.gen.GenSchemes X.Bridge.BrSchemesMatches.
 Import ListNotations.
 Local Open Scope nat_scope.
 Local Open Scope string_scope.
@@ -103,13 +103,13 @@ Proof.
   - rewrite !(both_kind_diff _ _ _ E). cbn. fin.
 Qed.
 
+(* MatchesNode: the regenerated guard (type assertion on node.Right, Regexp != nil, Regexp.String() ==
+   the literal's Value) is Ast.re_const: the pre-compiled pattern is used only while the right operand
+   still is the literal it was compiled from; otherwise the right operand is compiled. *)
 Lemma step_matches a re l r :
-  rec l = Some (comp l) -> (re = None -> rec r = Some (comp r)) ->
+  rec l = Some (comp l) -> (re_const re r = None -> rec r = Some (comp r)) ->
   I (EMatches a re l r) = Some (comp (EMatches a re l r)).
-Proof.
-  intros Hl Hr. destruct re as [p|]; go; rewrite Hl; cbn; [fin|].
-  rewrite (Hr eq_refl). cbn. fin.
-Qed.
+Proof. exact (matches_scheme_is_model rec mapenv a re l r). Qed.
 
 Lemma step_property a x name ns :
   rec x = Some (comp x) -> I (EProperty a x name ns) = Some (comp (EProperty a x name ns)).
